@@ -97,9 +97,17 @@ func DocKey(r *fw.Rand, id, typ string, purposes []string, material string) map[
 func jwkForDocType(r *fw.Rand, typ string) map[string]interface{} {
 	switch typ {
 	case TEd2018, TEd2020:
-		return NewKey(r, Ed25519).PlainJWK()
+		j := NewKey(r, Ed25519).PlainJWK()
+		if r.Chance(1, 5) {
+			j["y"] = "" // the form the library's own key model serializes for OKP keys
+		}
+		return j
 	case TSecp:
-		return NewKey(r, Secp256k1).PlainJWK()
+		j := NewKey(r, Secp256k1).PlainJWK()
+		if r.Chance(1, 4) {
+			j["crv"] = "P-256K" // the older name of the curve, still in circulation
+		}
+		return j
 	case TX25519:
 		return map[string]interface{}{"kty": "OKP", "crv": "X25519", "x": oracle.B64(r.Bytes(32))}
 	case TBls:
@@ -174,6 +182,10 @@ func RandService(r *fw.Rand, id string) map[string]interface{} {
 		s["serviceEndpoint"] = map[string]interface{}{"uri": fmt.Sprintf("https://o%d.example.com", r.Intn(50)), "accept": []interface{}{"didcomm/v2"}}
 	case 4:
 		s["serviceEndpoint"] = []interface{}{map[string]interface{}{"uri": fmt.Sprintf("https://l%d.example.com", r.Intn(50)), "routingKeys": []interface{}{"did:example:1#k"}}}
+		if r.Bool() {
+			// a list mixing URI strings and endpoint objects
+			s["serviceEndpoint"] = append([]interface{}{fmt.Sprintf("https://m%d.example.com", r.Intn(50))}, s["serviceEndpoint"].([]interface{})...)
+		}
 	}
 	if r.Chance(1, 3) {
 		s["priority"] = r.Intn(5)
@@ -209,7 +221,7 @@ var (
 	KeyIDPool = []string{"key1", "key2", "key-3", "k_4", "K5", "signing", "k", strings.Repeat("Kk-_0", 10)} // incl. lengths 1 and 50
 	SvcIDPool = []string{"svc1", "svc2", "hub-3", "s_4", "s", strings.Repeat("S9_-s", 10)}                  // incl. lengths 1 and 50
 	// incl. pairs that differ as strings but normalise to the same URI (scheme case, percent-encoding): set semantics are by string
-	URIPool = []string{"https://alice.example.com", "did:example:alice", "urn:uuid:6d1d6e4c", "https://a.example/path?q=1", "http://blog.example.org/",
+	URIPool = []string{"https://alice.example.com", "did:example:alice", "did:example:bob", "did:web:example.com", "urn:uuid:6d1d6e4c", "urn:uuid:7e2e7f5d", "mailto:alice@example.com", "https://a.example/path?q=1", "http://blog.example.org/",
 		"HTTPS://alice.example.com", "https://blog.example/caf%C3%A9", "https://blog.example/café"}
 )
 
@@ -361,6 +373,21 @@ func RandSimplePatch(r *fw.Rand) map[string]interface{} {
 	}
 	if keys == nil && svcs == nil {
 		keys = RandKeys(r, 1)
+	}
+	if r.Chance(1, 12) {
+		// long lists: more entries than any sample a log line or a pre-sized buffer would hold
+		n := r.Range(11, 14)
+		if r.Bool() {
+			keys = nil
+			for i := 0; i < n; i++ {
+				keys = append(keys, RandDocKey(r, fmt.Sprintf("bulk%d", i)))
+			}
+		} else {
+			svcs = nil
+			for i := 0; i < n; i++ {
+				svcs = append(svcs, RandService(r, fmt.Sprintf("bulksvc%d", i)))
+			}
+		}
 	}
 	return PReplace(keys, svcs)
 }
